@@ -12,7 +12,10 @@
      body       the lines of the log from the tenth-last non-empty line on; the
                 cvs logs (those that exist and are not empty) for the cvs step; packages.diff for a passing dpb; the
                 extracted regress blocks (C13's specification) when there are
-                any; the whole log in canvas mode
+                any; the whole log in canvas mode.  A log that does NOT EXIST is an empty log (the in-flight
+                record of step_exec_job names the log before tee creates it: an invocation killed in between
+                leaves such a row, and "every non-skipped step with a non-zero exit has its own section" holds
+                for it too); only a file that is there and cannot be read is an error
      sanitized  no NUL or CR byte is printed *)
 From Robsd Require Export Report.ReportFixture RegressLog.RLSpec.
 From Coq Require Import String.
@@ -56,18 +59,26 @@ Definition spec_status (m : mode) (rows : list srow) : bytes :=
 
 (* ---- which rows are listed ----------------------------------------------------------------- *)
 
+(* the content of a log as the report has to see it: a log that does not exist is empty *)
+Definition log_content (fs : files) (l : bytes) : result bytes :=
+  match f_log fs l with
+  | FData c => ROk c
+  | FAbsent => ROk []
+  | FUnreadable => RErr
+  end.
+
 Definition has_plain_line (fs : files) (r : srow) : bool :=
   match f_log fs (r_log r) with
-  | None => false
-  | Some c => negb (forallb isxtrace (getlines c))
+  | FData c => negb (forallb isxtrace (getlines c))
+  | _ => false
   end.
 
 Definition has_skipped_or_xfailed (fs : files) (r : srow) : bool :=
   match r_log r with
   | [] => false
   | l => match f_log fs l with
-         | None => false
-         | Some c => existsb (selected fl_peek) (drop_trace (clines c))
+         | FData c => existsb (selected fl_peek) (drop_trace (clines c))
+         | _ => false
          end
   end.
 
@@ -135,29 +146,44 @@ Definition spec_cvs_robsd := Eval vm_compute in
 Definition spec_cvs_ports := Eval vm_compute in
   [bs "cvs-ports-up.log"%string; bs "cvs-ports-ci.log"%string].
 
+(* the change logs robsd-cvs.sh collects below tmp-dir: src and xenocara for robsd, ports for robsd-ports, src for
+   robsd-regress (robsd-cvs.sh: `[ "${_MODE}" = "robsd-regress" ] && echo src`); robsd-cross has no cvs step and
+   canvas steps are the user's *)
+Definition spec_cvs_regress := Eval vm_compute in
+  [bs "cvs-src-up.log"%string; bs "cvs-src-ci.log"%string].
+
 Definition spec_cvs_names (m : mode) : list bytes :=
   match m with
   | Robsd => spec_cvs_robsd
   | Ports => spec_cvs_ports
+  | Regress => spec_cvs_regress
   | _ => []
   end.
 
 Definition nonnil {A} (l : list A) : bool := match l with [] => false | _ => true end.
 
+Definition is_unreadable (v : fread) : bool := match v with FUnreadable => true | _ => false end.
+
+(* is one of the cvs logs of the mode there but unreadable *)
+Definition cvs_unreadable (fs : files) (names : list bytes) : bool :=
+  existsb (fun n => is_unreadable (f_tmp fs n)) names.
+
 (* the cvs logs that were written and are not empty, each trimmed, separated by empty lines; a log that
    does not exist is like an empty one (robsd-ports without cvs-root writes none, a first checkout only
-   the -up log); never an error *)
-Definition spec_cvs (m : mode) (fs : files) : bytes * bool :=
-  let contents := flat_map (fun n => match f_tmp fs n with Some (c :: b) => [c :: b] | _ => [] end) (spec_cvs_names m) in
-  (10 :: join_nl (map spec_format contents), false).
+   the -up log); an error only when one of them is there and cannot be read *)
+Definition spec_cvs (m : mode) (fs : files) : result bytes :=
+  if cvs_unreadable fs (spec_cvs_names m) then RErr
+  else
+    let contents := flat_map (fun n => match f_tmp fs n with FData (c :: b) => [c :: b] | _ => [] end) (spec_cvs_names m) in
+    ROk (10 :: join_nl (map spec_format contents)).
 
 Definition spec_generic_body (m : mode) (fs : files) (r : srow) : result bytes :=
-  if beq (r_name r) name_cvs then ROk (fst (spec_cvs m fs))
+  if beq (r_name r) name_cvs then spec_cvs m fs
   else match r_log r with
        | [] => ROk []
-       | l => match f_log fs l with
-              | None => RErr
-              | Some c => ROk (spec_excerpt c)
+       | l => match log_content fs l with
+              | RErr => RErr
+              | ROk c => ROk (spec_excerpt c)
               end
        end.
 
@@ -165,21 +191,20 @@ Definition spec_generic_body (m : mode) (fs : files) (r : srow) : result bytes :
 Definition spec_body (m : mode) (cfg : cfgview) (fs : files) (r : srow) : result bytes :=
   match m with
   | Ports =>
-      if beq (r_name r) name_cvs then
-        (let '(b, e) := spec_cvs Ports fs in if e then RErr else ROk b)
+      if beq (r_name r) name_cvs then spec_cvs Ports fs
       else if beq (r_name r) name_dpb && (r_exit r =? 0)%Z then
         match f_tmp fs packages_diff with
-        | None => RErr
-        | Some b => ROk (10 :: spec_format b)
+        | FData b => ROk (10 :: spec_format b)
+        | _ => RErr
         end
       else spec_generic_body m fs r
   | Regress =>
       match r_log r with
       | [] => RErr
       | l =>
-          match f_log fs l with
-          | None => RErr
-          | Some c =>
+          match log_content fs l with
+          | RErr => RErr
+          | ROk c =>
               let bl := file_blocks (fl_log (mem (r_name r) (c_quiet cfg))) c in
               if nonnil bl then ROk (10 :: render_from false 0 bl) else spec_generic_body m fs r
           end
@@ -187,9 +212,9 @@ Definition spec_body (m : mode) (cfg : cfgview) (fs : files) (r : srow) : result
   | Canvas =>
       match r_log r with
       | [] => spec_generic_body m fs r
-      | l => match f_log fs l with
-             | None => RErr
-             | Some c => ROk (10 :: c)
+      | l => match log_content fs l with
+             | RErr => RErr
+             | ROk c => ROk (10 :: c)
              end
       end
   | _ => spec_generic_body m fs r
@@ -214,6 +239,28 @@ Definition spec_error (m : mode) (cfg : cfgview) (fs : files) (rows : list srow)
   negb (c_running cfg) ||
   match f_comment fs with FUnreadable => true | _ => false end ||
   existsb (row_error m cfg fs) rows.
+
+(* ---- the ways to get no report, named: each is outside what the orchestrator and the shell leave behind ------- *)
+
+(* a file the row's section has to show is there but cannot be read (a directory, no permission): not a "log
+   content" of the property's quantifier - tee creates logs as regular files of the invoking user *)
+Definition names_unreadable (m : mode) (fs : files) (r : srow) : bool :=
+  (nonnil (r_log r) && is_unreadable (f_log fs (r_log r))) ||
+  cvs_unreadable fs (spec_cvs_names m) || is_unreadable (f_tmp fs packages_diff).
+
+(* robsd-ports: the dpb row has exit 0 and tmp/packages.diff does not exist.  robsd-ports-dpb.sh creates the file
+   with its last command (`(cd ${TMPDIR} && diff -U0 packages{.orig,} >packages.diff) || :`) before it can exit 0 *)
+Definition dpb_without_diff (m : mode) (fs : files) (r : srow) : bool :=
+  match m with
+  | Ports => beq (r_name r) name_dpb && (r_exit r =? 0)%Z &&
+             match f_tmp fs packages_diff with FAbsent => true | _ => false end
+  | _ => false
+  end.
+
+(* robsd-regress: a row without a log name.  step_exec_job records the log name with every record it writes; rows
+   without one are the skip records (skip = 1), which the report passes over *)
+Definition regress_without_log_name (m : mode) (r : srow) : bool :=
+  match m with Regress => negb (nonnil (r_log r)) | _ => false end.
 
 (* ---- sanitizing --------------------------------------------------------------------------------- *)
 
@@ -291,3 +338,38 @@ Definition spec_ok_body (x : fixture) (k : nat) (body : bytes) : bool :=
   end.
 
 Definition spec_ok_sane (out : bytes) : bool := sane out.
+
+(* ---- the oracle on the BYTES robsd-report printed ----------------------------------------------------------------- *)
+
+(* The whole report as the specification has it, as a structure: status from [spec_status] where the hypotheses of the
+   status theorem hold, sections = the listed rows in order, each with name, exit as printed by "%d" of (int)exit, log
+   name and the specified body.  C05 says nothing about the Duration:/Size: lines, the tags and the comment: there the
+   structure carries what the model of report.c computes (C18 has its own oracle for the first two), likewise the
+   status of a step file outside the status hypotheses.  [None]: no report can be produced ([spec_error]). *)
+Definition spec_sections (m : mode) (cfg : cfgview) (fs : files) (dur : srow -> bytes) (rows : list srow) : list section :=
+  map (fun r => mksec (r_name r) (cast_int (r_exit r)) (dur r) (r_log r)
+                      (match spec_body m cfg fs r with ROk b => b | RErr => [] end))
+      (filter (spec_shown m cfg fs) rows).
+
+Definition spec_comment (fs : files) : option bytes :=
+  match f_comment fs with FData b => Some (frev (drop_nl (frev b))) | _ => None end.
+
+Definition spec_report (x : fixture) : option Report :=
+  match rows_of x with
+  | None => None
+  | Some rows =>
+      let m := x_mode x in let cfg := cfg_of x in let fs := files_of x in
+      if spec_error m cfg fs rows then None
+      else Some (mkrep m (subject_of m cfg fs)
+                       (if status_hyps m rows then spec_status m rows else report_status m rows)
+                       (stats_duration m rows) (c_builddir cfg) (f_tags fs) (report_sizes m cfg fs)
+                       (spec_comment fs) (spec_sections m cfg fs step_duration rows))
+  end.
+
+(* exit status and standard output, byte for byte: exit 1 and nothing printed when no report can be produced, else
+   exit 0 and the sanitized rendering of [spec_report] *)
+Definition spec_ok_bytes (x : fixture) (exit : N) (out : bytes) : bool :=
+  match spec_report x with
+  | None => (exit =? 1) && beq out []
+  | Some rep => (exit =? 0) && beq out (spec_sanitize (render_raw (x_host x) rep))
+  end.
